@@ -7,5 +7,6 @@ for id in ${@:-C01 C02 C03 C04 C05 C06 C07 C08 C09 C10 C11 C12 C13 C14 C15 C16 C
   t0=$(date +%s)
   /venv/bin/python run_check.py $id --tier $tier > /tmp/run_$id.$tier.log 2>&1
   rc=$?
+  if [ "$tier" = thorough ] && [ $rc -eq 0 ]; then mkdir -p evidence/thorough; cp evidence/$id.json evidence/thorough/$id.json; fi
   echo "$id $tier exit=$rc $(( $(date +%s) - t0 ))s  $(grep -c KNOWN-FINDING /tmp/run_$id.$tier.log) known-finding lines"
 done
